@@ -403,6 +403,42 @@ impl crate::check::Scene for RegistryBusy {
     }
 }
 
+/// ... and when the handler publishes on a broker topic its own actor is subscribed to, twice in
+/// a row, while the actor's mailbox is a small bounded one.
+struct RepublishingSubscriber {
+    n: usize,
+}
+
+impl crate::check::Scene for RepublishingSubscriber {
+    fn roles(&self) -> Vec<RoleCfg> {
+        vec![RoleCfg { started_actions: vec![Action::Subscribe { topic: 1 }], ..RoleCfg::default() }]
+    }
+    fn pre(&self) {
+        use futures::FutureExt as _;
+        let _ = hannibal::Addr::<hannibal::Broker<crate::world::T1>>::unregister().now_or_never();
+    }
+    fn setup(&self, exec: &crate::vexec::Exec) {
+        use crate::ops::{run_client, Handles};
+        let a = crate::scenes::spawn_probe(0, SpawnCfg::plain(Mailbox::B(self.n))).detach();
+        exec.spawn_client(0, run_client(0, Handles::with_addr(a), vec![Op::Sleep(1), Op::Cmd(H::Addr(0), 710, Action::PublishTwice { id: 41 }), Op::Call(H::Addr(0), 711), Op::Ping(H::Addr(0)), Op::Sleep(2)]));
+    }
+    fn check(&self, t: &Trace) -> Vec<Violation> {
+        let an = An::new(t.log);
+        let mut out = vec![];
+        crate::check::oblige("resolves-after-termination");
+        for o in &an.ops {
+            if o.end.is_none() {
+                out.push(Violation {
+                    clause: "resolves-after-termination",
+                    key: format!("C02/hang/republishing-subscriber/op={}/mailbox=B{}", o.i, self.n),
+                    detail: format!("client op {} never resolved: the actor's handler publishes twice on a topic the actor itself is subscribed to (its handlers all terminate)", o.i),
+                });
+            }
+        }
+        out
+    }
+}
+
 fn plain_cases(tier: Tier) -> Vec<Case> {
     let mut v = vec![];
     let first0 = [L::CallAddr, L::CallCal, L::CallWCal, L::CallOwn];
@@ -515,6 +551,15 @@ fn cases(tier: Tier) -> Vec<Case> {
         c.exec.select_choice = false;
         c
     }));
+    #[cfg(any(feature = "rt-tokio", feature = "rt-async"))]
+    for n in [0usize, 1, 2] {
+        v.push(Case {
+            desc: format!("resolve [the handler publishes twice on its own actor's topic] mailbox=B{n}"),
+            exec: ExecCfg { horizon: 20, ..ExecCfg::default() },
+            bound: None,
+            scene: Box::new(RepublishingSubscriber { n }),
+        });
+    }
     // handlers that need the registry while the registry is busy with their own actor
     for which in 0..5u8 {
         v.push(Case {
